@@ -28,13 +28,15 @@ RsNl        == [k |-> "nl"]
 RsSep(str)  == [k |-> "sep", s |-> str]
 RsPara      == [k |-> "para"]
 RsRe(r1)    == [k |-> "re", r |-> r1]
+\* a regular expression written with a spelling Render does not produce (counted repetition): r is its meaning
+RsReT(r1, t1) == [k |-> "re", r |-> r1, txt |-> t1]
 
 \* the text assigned to the AWK variable RS
 RsText(rs) ==
   CASE rs.k = "nl"   -> <<LF>>
     [] rs.k = "sep"  -> rs.s
     [] rs.k = "para" -> <<>>
-    [] rs.k = "re"   -> Render(rs.r)
+    [] rs.k = "re"   -> IF "txt" \in DOMAIN rs THEN rs.txt ELSE Render(rs.r)
 
 DropCR(str) == IF str # <<>> /\ str[Len(str)] = CR THEN SubSeq(str, 1, Len(str) - 1) ELSE str
 Ident(str)  == str
@@ -188,6 +190,9 @@ BaseMenu == {
   [name |-> "a|ab",   rs |-> RsRe(ReAorAB),    cls |-> "re-growing", alpha |-> {c_a, c_b, c_x}],
   [name |-> "b*a",    rs |-> RsRe(ReBstarA),   cls |-> "re-growing", alpha |-> {c_a, c_b, c_x}],
   [name |-> "nl+",    rs |-> RsRe(ReNLplus),   cls |-> "re-growing", alpha |-> {c_a, LF, CR}],
+  \* counted repetition: b{2,} (two or more), ab{1,2}
+  [name |-> "b{2,}",  rs |-> RsReT(Cat(Lit(c_b), Plus(Lit(c_b))), <<c_b, LBRC, D2, COMMA, RBRC>>), cls |-> "re-growing", alpha |-> {c_a, c_b, c_x}],
+  [name |-> "ab{1,2}", rs |-> RsReT(Cat(Lit(c_a), Cat(Lit(c_b), Opt(Lit(c_b)))), <<c_a, c_b, LBRC, D1, COMMA, D2, RBRC>>), cls |-> "re-growing", alpha |-> {c_a, c_b, c_x}],
   [name |-> "ab",     rs |-> RsRe(ReABlit),    cls |-> "re-fixed",   alpha |-> {c_a, c_b, c_x}],
   [name |-> "[ab]a",  rs |-> RsRe(ReClsAB),    cls |-> "re-fixed",   alpha |-> {c_a, c_b, c_x}] }
 RichMenu == BaseMenu \cup {
